@@ -34,7 +34,10 @@ Form of the statements: *existence* of the bounded solo run.  In a solo run star
 every node the thread reads is in the chain (hence allocated), so the model's only sources of
 non-determinism (the freelist's `next` word in a free node, which node `allocate` hands out) do
 not arise except for the identity of the fresh node; the accepted solo event sequence is then
-unique up to that identity.  That uniqueness is NOT proved here (see notes/C17.md, C17t).
+unique up to that identity.  That uniqueness is NOT proved here (see notes/C17.md, C17t); the
+driver's solo monitor (`Driver/DequeDrv.lean`, `soloMon`) tests the bound `Deque.soloBound` and the
+answer on every operation of the real runs that no other thread interleaved with.
+`C17_deque_solo_bound_pinned_partial`: the same for the pinned tree under `stale = false`.
 -/
 namespace PikaVerif.Deque
 open PikaVerif
